@@ -1,7 +1,9 @@
 """C05 — FEEL parsing and evaluation are total: a result or an error, never a crash.  (owner: builder-total)
 
 Proof: coq/Props/C05.v over coq/C05/Model.v — machine-integer arithmetic (debug = trap on overflow, release = wrap), vector indexing,
-the for/some/every odometer and the LALR table indexes (tables regenerated from feel-parser/src/lalr.rs on every run).
+the for/some/every odometer, the LALR table indexes and TERMINATION of the LALR driver loop (tables regenerated from
+feel-parser/src/lalr.rs on every run: coq/C05/LrTermModel.v, LrTermination.v, LrTermDriver.v) and progress of the lexer model
+(coq/C05/LexProgress.v over coq/C06/Lexer.v).
 Correspondence, two parts:
   (1) model tie: sublist / substring / insert before / remove / filter index / years-and-months duration literals / multi-variable
       iterations are run through the real code in the DEBUG and the RELEASE build and through the model (vm_compute); the outcome
@@ -509,8 +511,36 @@ def run_totality(ctx):
     return len(cases), hist, kinds
 
 
+TERM_HEADER = 'From Coq Require Import List ZArith.\nFrom DV Require Import Gen.LalrTables C05.LrTermModel.\nImport ListNotations.\nOpen Scope Z_scope.\n'
+TERM_CHECKS = [('rules_w_ok', 'rule_offenders', 'rules whose left-hand side does not weigh less than the right-hand side (or an empty rule that weighs something)'),
+               ('terminals_w_ok', None, 'a terminal weighs more than W'),
+               ('eps_ok', 'eps_offenders', '(state, lookahead symbol) where more than K reductions of empty rules follow each other: the loop may spin without reading input'),
+               ('end_shift_ok', 'end_offenders', 'states that shift the end marker into a state other than the final one'),
+               ('token_syms_ok', None, 'a token type of the lexer is not a terminal of the grammar')]
+
+
+def termination_checks(ctx):
+    """the finite checks behind the termination theorems (coq/C05/LrTermModel.v), evaluated as booleans on the regenerated tables: when
+    the proof gate breaks because lalr.rs changed, this names the check that fails and the rules / states at fault"""
+    rc, out = ctx.coq_make(['C05/LrTermModel.vo'])
+    if rc != 0:
+        ctx.broken.append('termination checks: coq/C05/LrTermModel.v does not build: %s' % out.strip().split('\n')[-3:])
+        return {}
+    terms = [c for c, _, _ in TERM_CHECKS] + [o for _, o, _ in TERM_CHECKS if o] + ['fuel_bound 0', 'fuel_bound 1']
+    res = dict(zip(terms, ctx.run_model(TERM_HEADER, terms, tag='term')))
+    out = {}
+    for c, o, what in TERM_CHECKS:
+        ok = str(res[c]) in ('True', 'true')
+        out[c] = ok
+        if not ok:
+            ctx.broken.append('termination check %s = false on the tables of lalr.rs: %s%s' % (c, what, (': ' + str(res[o])[:300]) if o else ''))
+    out['fuel_bound(n)'] = '%s * (n + 1) + %s' % (int(res['fuel_bound 1']) - int(res['fuel_bound 0']), 2 * int(res['fuel_bound 0']) - int(res['fuel_bound 1']))
+    return out
+
+
 def run(ctx):
     ctx.proof_gate(gen_cb=regen)
+    term = termination_checks(ctx)
     ctx.build_harness()
     ctx.build_harness(release=True)
     n_tie, n_ym, n_odo = run_tie(ctx)
@@ -529,10 +559,12 @@ def run(ctx):
              'sequences, block / line comments with runs of * and / (0..6) at every place of the body, unterminated, around tokens, iteration variables starting with the keyword in, every built-in with 0-5 positional and named extreme arguments (10^4-element lists, maximal durations, far dates, DST gaps/folds, regex bombs), operators, '
              'properties, filters, nesting depth 200 per recursive construct.  non-trivial = the code returned a non-null value',
         extra_cov={'exhaustive': False, 'builds': ['debug (overflow-checks on)', 'release (overflow-checks off)'], 'per_request': '8 MiB stack thread, catch_unwind, %d ms wall-clock limit, process death observed' % LIMIT_MS,
-                   'tie_cases': n_tie, 'lr_token_sequences': n_lr, 'lr_accepted': n_lr_acc, 'ym_cases': n_ym, 'odometer_cases': n_odo, 'totality_cases_per_build': n_tot, 'generator_histogram(both builds)': hist, 'outcome_kinds': kinds},
+                   'termination_checks': term, 'tie_cases': n_tie, 'lr_token_sequences': n_lr, 'lr_accepted': n_lr_acc, 'ym_cases': n_ym, 'odometer_cases': n_odo, 'totality_cases_per_build': n_tot, 'generator_histogram(both builds)': hist, 'outcome_kinds': kinds},
         assumptions=['Vec / String lengths are at most isize::MAX (valid_len)', 'FeelIterator steps are +1 / -1 (add_range / add_list are the only constructors)',
                      'decQuad to-scientific-string prints d.ddd E+(e+ndigits-1) for exponent e > 0 (sci_zero_count)'],
-        trusted=['PARTIAL: stack depth, allocator, regex engine, chrono / chrono-tz, decNumber C kernel, termination of the LR loop and the LR stack-depth invariant are not modelled; they are observed by the totality run only',
+        trusted=['PARTIAL: stack depth, allocator, regex engine, chrono / chrono-tz, decNumber C kernel are not modelled; they are observed by the totality run only',
+                 'termination of the LR loop / the LR stack-depth invariant / progress of the lexer are theorems about the driver and lexer MODELS (C05.LrDriver, C06.Actions, C06.Lexer); '
+                 'that Parser::parse and Lexer::next_token behave like them is the correspondence of C05 (accept / syntax error on token sequences) and C06 (trees node by node, tokens one by one), and the totality run',
                  'translators/lalr2coq.py and translators/lalrtokens2coq.py (read the const arrays, TokenType and reduce arms of lalr.rs by stable syntax)',
                  'harness dv guard (thread with fixed stack, catch_unwind, wall-clock limit)'])
 
@@ -558,8 +590,13 @@ MANIFEST = dict(
     text="PARTIAL. Proved for all inputs (coq/Props/C05.v, closed under the global context): sublist, substring, insert before, remove and the numeric filter never panic, give the same answer in "
          "the debug and the release build and only use indexes inside the collection, for every length, position and count; years-and-months duration literals never overflow (any digit groups); "
          "the for/some/every odometer terminates for every list of ranges (any isize bounds, either direction) and lists, makes exactly the product-many passes and visits every combination once; "
-         "the LALR driver loop over the current lalr.rs tables never indexes a table out of bounds for any token sequence and any number of steps (single-step sweeps over all states x tokens and rules x states, lifted by induction over the run). The pinned code is refuted by witnesses (4 fixed defects + 1 fixed under C08). "
-         "Not provable in this model and therefore only observed: stack depth, allocator, regex engine, chrono/chrono-tz, the decNumber C kernel, LR-loop termination and LR stack depth. These are covered by the totality run: "
+         "the LALR driver loop over the current lalr.rs tables never indexes a table out of bounds for any token sequence and any number of steps (single-step sweeps over all states x tokens and rules x states, lifted by induction over the run); "
+         "the driver loop TERMINATES: on every sequence of n lexer tokens it ends with accept or a syntax error within 27(n+1)+3 turns and never finds its state stack shorter than the right-hand side it pops "
+         "(weights per grammar symbol computed from the regenerated tables: a shift adds at most 8, a reduction by a non-empty rule removes at least 1, at most 2 mid-rule-action reductions in a row; "
+         "lifted through the automaton invariant of C06) -- stated for the checked driver of C05, for the full parser model of C06 with all 90 semantic actions (its own 40 turns per token are never used up: a tree or a syntax error, nothing else) and for the syntax-tree driver; "
+         "the lexer model makes progress: every call of next_token that returns a token consumes at least one character, the token stream of n characters is complete after n+1 calls, the comment / white-space scan stops where nothing is left to skip, the name-part collector stops by its break. "
+         "All table-dependent parts are re-proved whenever lalr.rs changes. The pinned code is refuted by witnesses (4 fixed defects + 1 fixed under C08). "
+         "Not provable in this model and therefore only observed: stack depth, allocator, regex engine, chrono/chrono-tz, the decNumber C kernel; termination is proved for the driver / lexer models, whose agreement with Parser::parse and Lexer::next_token is sampled (C05 LR sequences, C06 trees and token traces). These are covered by the totality run: "
          "~45k (quick) inputs x 2 builds over 7 parser entry points, each in an 8 MiB-stack thread with catch_unwind, a wall-clock limit and process-death detection.",
     note='Trusted: Coq kernel + vm_compute, hand-written model of core.rs / builders.rs / iterations.rs / ym_duration.rs (correspondence-checked in both builds), lalr2coq translators, harness dv guard. '
          'A panic, abort, stack overflow or hang of any generated input in either build is a VIOLATION with the input as replay.')
